@@ -477,6 +477,19 @@ impl<'a, T: Evaluate> PiecewiseEvaluator<'a, T> {
     }
 }
 
+#[cfg(piecewise_polynomial_verif)]
+impl<'a, T> PiecewiseEvaluator<'a, T> {
+    /// Read-only view of the hidden cursor for the verification harness:
+    /// (segments in front of the cursor, cursor length, bits of the last argument).
+    pub fn verif_state(&self) -> (usize, usize, u64) {
+        (
+            self.all_segments_front.len() - self.tail.len(),
+            self.tail.len(),
+            self.last_evaluation.to_bits(),
+        )
+    }
+}
+
 impl<T: Evaluate> Evaluate for Piecewise<T> {
     #[inline]
     fn evaluate(&self, x: f64) -> f64 {
